@@ -52,6 +52,7 @@ mod execute_imports {
         BUCKETS,
         BUCKET_ID_USED,
         FEE_DENOM,
+        GetComPoolMsg,
         LISTING_ID_USED, //BUCKET_COUNT, LISTING_COUNT
         ROYALTY_REGISTRY
     };
